@@ -270,7 +270,7 @@ var c11Embeddings = []c11Embedding{
 func TestVerifC11(t *testing.T) {
 	r := vNewReport("C11")
 	defer r.Write(t)
-	r.Extra["rule"] = "20 documented untrusted paths: full spelling product of every segment in the bare embedding; proper prefixes, trusted siblings per segment, one-segment extensions, object filter in place of each named segment; array filter followed by an index at every later place of the chain; every path continued on the result of a parenthesised || / && (4 templates x every split point); canonical + adversarial spelling (thorough: every spelling) of every path in 23 embeddings (operators, parentheses, call arguments, index positions, 2 and 3 chains, sanitising calls nested both ways), pairs of different paths in the multi-chain embeddings; every path (3 spellings) next to 10 partner chains that leave the matcher in different states, both orders, 3 templates; script positions (run:, github-script script:; also scripts whose own text holds {{ }} before the placeholder) and non-script positions (env:, other with: input, if:, name:) through Linter.Lint. oracle = stateless reference matcher on segment lists. class = (family, number of reports expected); non-trivial = something must be reported"
+	r.Extra["rule"] = "20 documented untrusted paths: full spelling product of every segment in the bare embedding; proper prefixes, trusted siblings per segment, one-segment extensions, object filter in place of each named segment; array filter followed by an index at every later place of the chain; every path continued on the result of a parenthesised || / && (4 templates x every split point); canonical + adversarial spelling (thorough: every spelling) of every path in 23 embeddings (operators, parentheses, call arguments, index positions, 2 and 3 chains, sanitising calls nested both ways), pairs of different paths in the multi-chain embeddings; every path (3 spellings) next to 10 partner chains that leave the matcher in different states, both orders, 3 templates; script positions (run:, github-script script:; also scripts whose own text holds {{ }} before the placeholder) and non-script positions (env:, other with: input, if:, name:; 14 positions that hold exactly one expression - booleans, numbers, whole sections, runner labels - in plain, single- and double-quoted style) through Linter.Lint. oracle = stateless reference matcher on segment lists. class = (family, number of reports expected); non-trivial = something must be reported"
 	r.Extra["assumptions"] = []string{"a chain is a variable followed by accessors; chains interrupted by operators are not claimed (DESIGN section 7)", "a non-string index anywhere after an object filter (it selects an element of the filtered array) is not generated"}
 	if raw := vReplayInput(); raw != nil {
 		var rp struct {
@@ -546,6 +546,33 @@ func TestVerifC11(t *testing.T) {
 				{"if", head + "      - run: echo\n        if: " + q(e+" == 'x'") + "\n", false},
 				{"name", head + "      - run: echo\n        name: " + q(e) + "\n", false},
 				{"job-env", "on: pull_request\njobs:\n  a:\n    runs-on: ubuntu-latest\n    env:\n      V: " + q(e) + "\n    steps:\n      - run: echo\n", false},
+			}
+			// positions that hold exactly ONE expression (booleans, numbers, whole sections): not scripts
+			// either, in each of the three scalar styles
+			for qi, qf := range []func(string) string{q, func(s string) string { return "\"" + s + "\"" }, func(s string) string { return s }} {
+				if qi == 2 && (strings.Contains(e, ": ") || strings.Contains(e, " #")) {
+					continue // not a plain scalar
+				}
+				st := []string{"single", "double", "plain"}[qi]
+				v := qf(e)
+				job := "on: pull_request\njobs:\n  a:\n    runs-on: ubuntu-latest\n"
+				steps := "    steps:\n      - run: echo\n"
+				ps = append(ps,
+					pos{"job-continue-on-error-" + st, job + "    continue-on-error: " + v + "\n" + steps, false},
+					pos{"job-timeout-minutes-" + st, job + "    timeout-minutes: " + v + "\n" + steps, false},
+					pos{"step-continue-on-error-" + st, job + steps + "        continue-on-error: " + v + "\n", false},
+					pos{"step-timeout-minutes-" + st, job + steps + "        timeout-minutes: " + v + "\n", false},
+					pos{"fail-fast-" + st, job + "    strategy:\n      fail-fast: " + v + "\n      matrix:\n        x: [1]\n" + steps, false},
+					pos{"max-parallel-" + st, job + "    strategy:\n      max-parallel: " + v + "\n      matrix:\n        x: [1]\n" + steps, false},
+					pos{"matrix-" + st, job + "    strategy:\n      matrix: " + v + "\n" + steps, false},
+					pos{"matrix-row-" + st, job + "    strategy:\n      matrix:\n        x: " + v + "\n" + steps, false},
+					pos{"matrix-include-" + st, job + "    strategy:\n      matrix:\n        x: [1]\n        include: " + v + "\n" + steps, false},
+					pos{"job-env-section-" + st, job + "    env: " + v + "\n" + steps, false},
+					pos{"step-env-section-" + st, job + steps + "        env: " + v + "\n", false},
+					pos{"runs-on-" + st, "on: pull_request\njobs:\n  a:\n    runs-on: " + v + "\n" + steps, false},
+					pos{"runs-on-labels-" + st, "on: pull_request\njobs:\n  a:\n    runs-on:\n      group: g\n      labels: " + v + "\n" + steps, false},
+					pos{"cancel-in-progress-" + st, "on: pull_request\nconcurrency:\n  group: g\n  cancel-in-progress: " + v + "\n" + strings.TrimPrefix(job, "on: pull_request\n") + steps, false},
+				)
 			}
 			for _, p := range ps {
 				res := vLint(p.src, nil)
